@@ -41,8 +41,11 @@ def _code(op):
     return c
 
 
-def mk(fr: Fraction):
-    return int(fr) if fr.denominator == 1 else sympy.Rational(fr.numerator, fr.denominator)
+def mk(fr: Fraction, rep="int"):
+    """rep: how an integer is represented: 'int' (what arithmetic returns) or 'sympy' (what a literal pushes)."""
+    if fr.denominator == 1:
+        return int(fr) if rep == "int" else sympy.Integer(int(fr))
+    return sympy.Rational(fr.numerator, fr.denominator)
 
 
 def ref(op, a: Fraction, b: Fraction):
@@ -63,10 +66,10 @@ def ref(op, a: Fraction, b: Fraction):
     raise ValueError(op)
 
 
-def check_pair(op, a: Fraction, b: Fraction):
+def check_pair(op, a: Fraction, b: Fraction, rep="int"):
     want = ref(op, a, b)
     harness.reset_globals()
-    stack = [mk(a), mk(b)]
+    stack = [mk(a, rep), mk(b, rep)]
     r = harness.exec_py(_code(op), stack, harness.fresh_ctx(), budget=300_000)
     if r.exc is not None:
         if want is None:
@@ -94,6 +97,11 @@ def _pair_case(op, a, b):
 
 
 def _do_pair(rec, op, a, b, cls):
+    if a.denominator == 1 or b.denominator == 1:
+        r2 = check_pair(op, a, b, "sympy")
+        rec.case(key=(op, str(a), str(b), "sympy"), nontrivial=a.denominator != 1 or b.denominator != 1, cls=[cls, f"op{op}", "integers as sympy.Integer"])
+        if r2:
+            rec.fail(r2[0] + ":sympy-integer-operand", dict(_pair_case(op, a, b), rep="sympy"), r2[1] + " [integer operands given as sympy.Integer, which is what a literal pushes]")
     r = check_pair(op, a, b)
     want = ref(op, a, b)
     nt = a.denominator != 1 or b.denominator != 1 or (want is not None and want.denominator != 1)
@@ -141,7 +149,7 @@ def _leaf():
 def _tree():
     return st.recursive(
         _leaf(),
-        lambda ch: st.tuples(st.sampled_from("+-*/"), ch, ch).map(lambda t: ("o", t[0], t[1], t[2])),
+        lambda ch: st.tuples(st.sampled_from(["+", "-", "*", "/", "+", "-", "*", "/", "%", "ḭ"]), ch, ch).map(lambda t: ("o", t[0], t[1], t[2])),
         max_leaves=12,
     )
 
@@ -170,6 +178,8 @@ def evaluate(t):
     a, na, fa = evaluate(t[2])
     b, nb, fb = evaluate(t[3])
     v = ref(t[1], a, b)
+    if v is None:
+        raise ZeroDivisionError("modulo by zero is not claimed")
     return v, na + nb + 1, fa or fb or v.denominator != 1
 
 
@@ -185,7 +195,7 @@ def _totuple(t):
         Fraction(t[1])
         assert len(t) == 2 and t[1][0].isdigit() and "." in t[1]
     else:
-        assert t[0] == "o" and t[1] in "+-*/" and len(t[1]) == 1 and len(t) == 4
+        assert t[0] == "o" and t[1] in ("+", "-", "*", "/", "%", "ḭ") and len(t) == 4
     return t
 
 
@@ -215,7 +225,11 @@ def _shard_hyp(rec, arg):
         if depth(t) > 5:
             rec.discard("tree-too-deep")
             return
-        want, nops, nonint = evaluate(t)
+        try:
+            want, nops, nonint = evaluate(t)
+        except ZeroDivisionError:
+            rec.discard("modulo-by-zero-in-tree")
+            return
         text = render(t)
         r = check_program(text, want)
         rec.case(key=text, nontrivial=nops >= 2 and nonint, cls=["tree", f"tree-depth{depth(t)}"])
@@ -266,14 +280,18 @@ def replay(case):
     k = case.get("kind")
     if k == "pair":
         try:
-            return check_pair(case["op"], _fr(case["a"]), _fr(case["b"]))
+            r = check_pair(case["op"], _fr(case["a"]), _fr(case["b"]), "sympy" if case.get("rep") == "sympy" else "int")
+            return (r[0] + ":sympy-integer-operand", r[1]) if (r and case.get("rep") == "sympy") else r
         except ZeroDivisionError:
             return None
     if k == "tree":
         t = _totuple(case["tree"])
         if depth(t) > 5:
             return None
-        want, _, _ = evaluate(t)
+        try:
+            want, _, _ = evaluate(t)
+        except ZeroDivisionError:
+            return None
         return check_program(render(t), want)
     if k == "ident":
         a, b = _fr(case["a"]), _fr(case["b"])
